@@ -70,7 +70,7 @@ def make_scenario(case):
     scn = {
         "files": files, "argv": argv, "behaviours": beh, "pre_tree": pre_tree,
         "index_rows": rows if rows or case.get("empty_index") else None,
-        "unrelated": bool(case.get("unrelated")), "case": case,
+        "unrelated": case.get("unrelated") or False, "case": case,
     }
     if case.get("git"):
         # two commits c1 <- c2 (HEAD)
